@@ -68,7 +68,8 @@ class Replayer:
         from leaspy.io.data.dataset import Dataset
         joint = bool(zoo.CONFIGS[kind][1].get("events"))
         self.data_d1 = Data.from_dataframe(self.dfs["D1"], data_type="joint") if joint else Data.from_dataframe(self.dfs["D1"])
-        self.inputs = {"D1": self.dfs["D1"],
+        # (a table of a joint cohort cannot be passed as such: its event columns would be read as features)
+        self.inputs = {"D1": self.dfs["D1"] if not joint else Data.from_dataframe(self.dfs["D1"], data_type="joint"),
                        "D2": Dataset(Data.from_dataframe(self.dfs["D2"], data_type="joint") if joint else Data.from_dataframe(self.dfs["D2"]))}
         self.settings = {}
         self.features = [c for c in self.dfs["D1"].columns if c.startswith("Y")]
@@ -207,6 +208,8 @@ class Replayer:
                         r1 = ips.to_dataframe()
                         result = _h(r1.values, np.array(list(r1.index), dtype="U"))
                         inputs_ok = self.same(snap, df) and self.same(psnap, vars(settings))
+                    elif op == "Simulate" and type(model).__name__ != "LogisticModel":
+                        pass          # simulation is defined for logistic models only (C18): nothing is called, nothing may change
                     elif op == "Simulate":
                         vp = {"patient_number": 3, "visit_type": "random", "first_visit_mean": 0.0, "first_visit_std": 0.4,
                               "time_follow_up_mean": 4, "time_follow_up_std": 0.5, "distance_visit_mean": 1.0,
